@@ -318,8 +318,17 @@ class Formatter(ABC):
         return re.sub(r"%%|%[-+!*]?[A-Za-z]", _to_regex, fmt)
 
     @classmethod
-    @lru_cache(maxsize=None)
     def regex(cls) -> DictStr:
+        """Return a copy of the cached mapping of ``cls._regex()``; a change
+        of the returned dict must not change what this class parses.
+
+        :rtype: DictStr
+        """
+        return cls._regex().copy()
+
+    @classmethod
+    @lru_cache(maxsize=None)
+    def _regex(cls) -> DictStr:
         """Return a dict of format string, and it's regular expression value
         that was generated from values of ``cls.asset``. This class-method
         was wrapped with ``lru_cache`` function for more frequency getting this
